@@ -9,7 +9,7 @@ PROP = 'C18'
 LEAN_MODULES = ['BR.Props.C18', 'BR.Props.C18Twist', 'BR.Props.C18Arc']
 THEOREMS = ['BR.C18.plane_contains_points', 'BR.C18.mirror_reflects', 'BR.C18.mirror_involution', 'BR.C18.interpMid_pos', 'BR.C18.interpMid_geodesic',
             'BR.C18.lookAt_keeps_pos', 'BR.C18.lookAt_proper', 'BR.C18.distance_metric', 'BR.C18.arcDistance_is_norm', 'BR.C18.closeLinearGap_advance',
-            'BR.C18.ikPath_shape', 'BR.C18.ikPath_even', 'BR.C18.fibo_unit', 'BR.C18.unitSphere_unit', 'BR.C18.angleMod_mod_2pi',
+            'BR.C18.ikPath_shape', 'BR.C18.ikPath_even', 'BR.C18.fibo_unit', 'BR.C18.unitSphere_unit', 'BR.C18.angleMod_mod_2pi', 'BR.C18.angleMod_range', 'BR.C18.angleMod_idem',
             'BR.Rot.rod_add', 'BR.Rot.log3_generic_form',
             'BR.C18T.twistToGoal_reaches', 'BR.C18A.rel_of_step', 'BR.C18A.closeArcGap_advance', 'BR.C18A.closeArcGap_at_goal']
 TIE = ('K: hand-written model lean/BR/Model/Helpers.lean of the fsr helpers; every run evaluates the Float instance (compiled driver) and the real functions on the same '
